@@ -210,10 +210,8 @@ def do_svd_partial(ctx, yastn, rng, cfg, sym, cplx):
     a = yastn.rand(config=cfg, legs=[l0, l1], n=cfg.sym.zero())
     policy = rng.choice(["lowrank", "block_arnoldi", "block_propack", "block_propack"])
     k = rng.choice([1, 2, 2])
-    if edge:
-        policy, k = rng.choice(["lowrank", "block_arnoldi"]), wide - 1
-        if a.yastn_dtype != "float64":      # (complex data: scipy's ARPACK limits differ; kept out of this stratum)
-            a = a.real() if hasattr(a, "real") else a
+    if edge:     # real and complex data (scipy's ARPACK limits differ: k + 1 < ncv for complex; repaired by 6fa9f65)
+        policy, k = rng.choice(["lowrank", "block_arnoldi"]), wide - rng.choice([1, 2, 2, 3])
     kw = {"D_block": k} if rng.random() < 0.5 else {"k_block": k}
     sU = rng.choice([1, -1])
     case = describe(a, ((0,), (1,)), sU=sU, which="svd-partial", policy=policy, k=k, wide=wide, seed_note="yastn.rand seeded from VERIF_SEED")
